@@ -93,6 +93,7 @@ func c04ScriptedDownload(e *Env) {
 	clean := t.Chance(1, 4)
 	cur, etag := v1, etag1
 	switched := false
+	peerUpload := false
 	served := 0
 	var reqTok []byte
 	w.OnRecv = func(m *WMsg) {
@@ -121,6 +122,17 @@ func c04ScriptedDownload(e *Env) {
 		mode := t.Weighted(8, 2, 2, 1, 1)
 		if clean {
 			mode = 0
+		}
+		if !clean && !peerUpload && served > 0 && t.Chance(1, 6) {
+			// tokens are scoped per direction: between two blocks of the download the peer starts an upload of its own
+			// whose token happens to have the same bytes. It is a request for the connection's handler and has nothing
+			// to do with the download.
+			peerUpload = true
+			e.Fault("block.peerUploadWithTheSameToken")
+			e.Probe("peer.uploadWithTheTokenOfTheDownload")
+			up := &WMsg{Type: TNON, Code: 2, MID: w.NextPeerMID(), Token: m.Token, Opts: []WOpt{{Num: OptURIPath, Val: []byte("peer-upload")}, UintOpt(OptBlock1, BlockOpt(0, true, sz))}, Payload: bytes.Repeat([]byte("U"), 16<<sz)}
+			it := w.Queue(up, "first block of an upload of the peer with the token of the download")
+			it.NoDrop = true
 		}
 		label := "block"
 		switch mode {
